@@ -305,6 +305,49 @@ func boundaryCases() []boundaryCase {
 		for _, n := range []int{0, 1, 63, 64, 65} {
 			cs = append(cs, boundaryCase{fmt.Sprintf("%s/socks5/sendChannelCapacity=%d", form, n), "socks5", legacy, setUDP("sendChannelCapacity", n), n == 0 || n >= 64})
 		}
+		// negative / zero / large values of the remaining validated numeric fields
+		for _, p := range []string{"direct", "socks5", "none"} {
+			cs = append(cs, boundaryCase{fmt.Sprintf("%s/%s/natTimeout=-1s", form, p), p, legacy, setUDP("natTimeout", "-1s"), false})
+			cs = append(cs, boundaryCase{fmt.Sprintf("%s/%s/natTimeout=24h", form, p), p, legacy, setUDP("natTimeout", "24h0m0s"), true})
+			cs = append(cs, boundaryCase{fmt.Sprintf("%s/%s/server-mtu=-1", form, p), p, legacy, func(w *world) { w.servers[0].mtu = intp(-1) }, false})
+			cs = append(cs, boundaryCase{fmt.Sprintf("%s/%s/server-mtu=65535", form, p), p, legacy, func(w *world) { w.servers[0].mtu = intp(65535) }, true})
+		}
+		for _, p := range ss {
+			cs = append(cs, boundaryCase{fmt.Sprintf("%s/%s/natTimeout=-1s", form, p), p, legacy, setUDP("natTimeout", "-1s"), false})
+			for _, n := range []int{-1, 0, 1, 65536} {
+				cs = append(cs, boundaryCase{fmt.Sprintf("%s/%s/slidingWindowFilterSize=%d", form, p, n), p, legacy, func(w *world) {
+					if n == 0 {
+						w.servers[0].f["slidingWindowFilterSize"] = &dfield{Mode: mEmpty}
+					} else {
+						w.servers[0].f["slidingWindowFilterSize"] = &dfield{Mode: mValue, Val: n}
+					}
+				}, n >= 0})
+			}
+		}
+		if !legacy {
+			// only the listener array can express the initial-payload parameters
+			for _, p := range []string{"direct", "socks5", "http", "none", "2022-blake3-aes-128-gcm"} {
+				for _, n := range []int{-1440, -1, 0, 1, 1440, 1 << 20} {
+					cs = append(cs, boundaryCase{fmt.Sprintf("%s/initialPayloadWaitBufferSize=%d", p, n), p, false, func(w *world) {
+						if n == 0 {
+							w.servers[0].tcp[0].f["initialPayloadWaitBufferSize"] = &dfield{Mode: mEmpty}
+						} else {
+							w.servers[0].tcp[0].f["initialPayloadWaitBufferSize"] = &dfield{Mode: mValue, Val: n}
+						}
+					}, n >= 0})
+				}
+				for _, v := range []string{"-250ms", "-1ns", "0s", "1ns", "250ms", "1h0m0s"} {
+					d, _ := time.ParseDuration(v)
+					cs = append(cs, boundaryCase{fmt.Sprintf("%s/initialPayloadWaitTimeout=%s", p, v), p, false, func(w *world) {
+						if d == 0 {
+							w.servers[0].tcp[0].f["initialPayloadWaitTimeout"] = &dfield{Mode: mEmpty}
+						} else {
+							w.servers[0].tcp[0].f["initialPayloadWaitTimeout"] = &dfield{Mode: mValue, Val: v}
+						}
+					}, d >= 0})
+				}
+			}
+		}
 		// key lengths
 		for _, p := range ss {
 			for _, d := range []int{-1, 0, +1} {
@@ -317,6 +360,51 @@ func boundaryCases() []boundaryCase {
 		cs = append(cs, boundaryCase{fmt.Sprintf("client-direct-mtu=%d", m), "socks5", false, func(w *world) { w.clients[0].mtu = intp(m) }, m >= 1280})
 	}
 	cs = append(cs, boundaryCase{"client-direct-mtu-omitted", "socks5", false, func(w *world) { w.clients[0].mtu = nil }, false})
+	cs = append(cs, boundaryCase{"client-direct-mtu=-1", "socks5", false, func(w *world) { w.clients[0].mtu = intp(-1) }, false})
+	// a client that exists for one network only, named by references of every coverage
+	type halfRef struct {
+		name   string
+		tcp    bool // the half client has TCP (else UDP)
+		mut    func(w *world, name string)
+		accept bool
+	}
+	addRoute := func(network string) func(w *world, name string) {
+		return func(w *world, name string) {
+			w.routes = append(w.routes, &route{name: "half", network: network, client: name, fromServers: []string{"s0"}, f: fields{}, extra: map[string]any{}})
+		}
+	}
+	for _, tcpHalf := range []bool{true, false} {
+		kind := map[bool]string{true: "tcp-only", false: "udp-only"}[tcpHalf]
+		refs := []halfRef{
+			{"route-any-network", tcpHalf, addRoute(""), false},
+			{"route-tcp", tcpHalf, addRoute("tcp"), tcpHalf},
+			{"route-udp", tcpHalf, addRoute("udp"), !tcpHalf},
+			{"default-tcp", tcpHalf, func(w *world, name string) { w.defTCP = strp(name) }, tcpHalf},
+			{"default-udp", tcpHalf, func(w *world, name string) { w.defUDP = strp(name) }, !tcpHalf},
+			{"resolver-tcp", tcpHalf, func(w *world, name string) {
+				w.dns = append(w.dns, &res{name: "r0", addrPort: "127.0.0.1:@@DNS@@", tcpC: name, f: fields{}})
+			}, tcpHalf},
+			{"resolver-udp", tcpHalf, func(w *world, name string) {
+				w.dns = append(w.dns, &res{name: "r0", addrPort: "127.0.0.1:@@DNS@@", udpC: name, f: fields{}})
+			}, !tcpHalf},
+			{"group-tcp-member", tcpHalf, func(w *world, name string) {
+				w.groups = append(w.groups, &grp{name: "g0", tcp: &sel{policy: "round-robin", clients: []string{"d0", name}}})
+			}, tcpHalf},
+			{"group-udp-member", tcpHalf, func(w *world, name string) {
+				w.groups = append(w.groups, &grp{name: "g0", udp: &sel{policy: "random", clients: []string{name, "d0"}}})
+			}, !tcpHalf},
+		}
+		for _, r := range refs {
+			cs = append(cs, boundaryCase{fmt.Sprintf("half-client/%s/%s", kind, r.name), "socks5", false, func(w *world) {
+				c := &cli{name: "half", proto: "direct", tcp: tcpHalf, udp: !tcpHalf, toServer: -1, f: fields{}}
+				if !tcpHalf {
+					c.mtu = intp(1500)
+				}
+				w.clients = append(w.clients, c)
+				r.mut(w, "half")
+			}, r.accept})
+		}
+	}
 	for _, p := range ss {
 		addClient := func(w *world, pskDelta, ipskDelta int, multi bool) {
 			s := w.servers[0]
